@@ -702,6 +702,41 @@ func runMirror(c *core.Ctx) []core.Obligation {
 	} else {
 		obs = append(obs, core.Ob("R-MIRROR", "wrap:int-clamp", "-", "", core.Violated, "unresolved anchor"))
 	}
+	// one projection kernel: the leaf cell of a point (xyzToFaceUV, via cellIDFromPoint) and the containment test of a
+	// cell (faceXYZToUV, via Cell.ContainsPoint) must compute (u,v) with the very same floating-point operations, or
+	// they disagree by more than the containment margin allows; both delegate to validFaceXYZToUV and do no
+	// multiplication or division of their own
+	for _, name := range []string{"xyzToFaceUV", "faceXYZToUV"} {
+		fn := c.Fn("s2", "", name)
+		construct := "projection:single-kernel:" + name
+		if fn == nil {
+			obs = append(obs, core.Ob("R-MIRROR", construct, "-", "", core.Violated, "unresolved anchor"))
+			continue
+		}
+		delegates, ownArith := false, ""
+		core.AllInstrs(fn, func(in ssa.Instruction) {
+			switch x := in.(type) {
+			case *ssa.Call:
+				if f := core.StaticCallee(x); f != nil && f.Name() == "validFaceXYZToUV" {
+					delegates = true
+				}
+			case *ssa.BinOp:
+				if b, isB := x.Type().Underlying().(*types.Basic); isB && b.Info()&types.IsFloat != 0 && (x.Op == token.MUL || x.Op == token.QUO) {
+					ownArith = c.Pos(x.Pos())
+				}
+			}
+		})
+		if delegates && ownArith == "" {
+			obs = append(obs, core.Ob("R-MIRROR", construct, c.Pos(fn.Pos()), core.FuncName(fn), core.Discharged, "(u,v) come from validFaceXYZToUV, no arithmetic of its own"))
+		} else {
+			why := "does not delegate to validFaceXYZToUV"
+			if ownArith != "" {
+				why = "computes (u,v) with its own multiplication/division at " + ownArith
+			}
+			obs = append(obs, core.Ob("R-MIRROR", construct, c.Pos(fn.Pos()), core.FuncName(fn), core.Violated,
+				name+" "+why+": the point-to-cell conversion and Cell.ContainsPoint no longer use the same floating-point operations, so for points within a few ulps of a cell boundary the leaf cell of a point (and its ancestors) can fail to contain it"))
+		}
+	}
 	_ = strings.Join
 	return obs
 }
